@@ -4,9 +4,9 @@ ORACLES = {
     "C04": {"holder_accepts_issued", "fresh_e", "fresh_v", "cl_equation", "e_prime_in_range", "vpp_bits", "m2_context",
             "model_issuer_accepted"},
     "C05": {"issuer_rejects_altered", "holder_rejects_altered", "holder_rejects_altered_key", "holder_accepts_issued", "key_proof_accepted",
-            "reference_issuer_verdict", "reference_holder_accepted"},
+            "reference_issuer_verdict", "reference_holder_accepted", "holder_no_panic"},
     "C06": {"one_r_per_attribute", "revocation_part_presence", "key_proof_accepted", "rev_key_corresponds",
-            "rev_generators_distinct", "holder_rejects_altered_key", "key_oracle", "key_proof_accepted"},
+            "rev_generators_distinct", "holder_rejects_altered_key", "key_oracle", "key_proof_accepted", "key_proof_covers_all"},
     "C07": {"holder_accepts_issued", "reference_issuer_verdict", "reference_holder_accepted"},
     "C20": {"issuer_no_panic", "holder_no_panic"},
 }
@@ -192,5 +192,21 @@ def cmp_key_prove(prop, case, model, mat, F, variant, final):
     return True
 
 
-COMPARATORS = {"key_prove": cmp_key_prove, "ctx": cmp_ctx, "blinded_check": cmp_bool_check, "key_proof_check": cmp_bool_check, "sig_check": cmp_sig_check,
+def cmp_holder_nr(prop, case, model, mat, F, variant, final):
+    """the holder's pairing-side check of a revocation signature (process_credential_signature with key, registry and
+    witness) against the exponent-form model of _test_witness_signature"""
+    if not final:
+        return True
+    report(prop, case, F, variant)
+    if bad_model(model, case, F, variant, final):
+        return False
+    real, ma = bool(case["impl"].get("accept")), bool(model.get("accept"))
+    if real != ma:
+        F.mismatch("holder_nr_check", "%s ('%s'): process_credential_signature %s (%s), the model of _test_witness_signature %s (equations hold: %s)" %
+                   (case["id"], case.get("class", {}).get("alteration"), "accepts" if real else "refuses", case["impl"].get("status"),
+                    "accepts" if ma else "refuses", model.get("eqs")), case, variant, model)
+    return True
+
+
+COMPARATORS = {"holder_nr_check": cmp_holder_nr, "key_prove": cmp_key_prove, "ctx": cmp_ctx, "blinded_check": cmp_bool_check, "key_proof_check": cmp_bool_check, "sig_check": cmp_sig_check,
                "sign": cmp_sign, "blind_prove": cmp_blind_prove, "key_check": cmp_key_check, "issue_failed": cmp_none}
